@@ -15,10 +15,10 @@ func zzC05FS() *zzFS {
 	return newZZFS(map[string]string{
 		"c.vuego": "---\nfm: FM\nboth: FMBOTH\n---\n" +
 			`<span class="c">[a={{ a }}|b={{ b }}|fm={{ fm }}|both={{ both }}|inc={{ inc }}|t={{ b | type }}]</span>`,
-		"outer.vuego":             `<div class="outer"><template include="c.vuego" :a="oa" b="static-b"></template>{oa={{ oa }}}</div>`,
-		"req.vuego":               `<template :required="must, also"><i>{{ must }}/{{ also }}</i></template>`,
-		"req1.vuego":              `<template :require="must"><i>{{ must }}</i></template>`,
-		"reqfm.vuego":             "---\nmust: FM-M\n---\n<template :required=\"must, also\"><i>{{ must }}/{{ also }}</i></template>",
+		"outer.vuego":              `<div class="outer"><template include="c.vuego" :a="oa" b="static-b"></template>{oa={{ oa }}}</div>`,
+		"req.vuego":                `<template :required="must, also"><i>{{ must }}/{{ also }}</i></template>`,
+		"req1.vuego":               `<template :require="must"><i>{{ must }}</i></template>`,
+		"reqfm.vuego":              "---\nmust: FM-M\n---\n<template :required=\"must, also\"><i>{{ must }}/{{ also }}</i></template>",
 		"components/my-card.vuego": `<section class="card">[{{ title }}|{{ n }}]</section>`,
 	})
 }
